@@ -7,6 +7,7 @@ import (
 	"fmt"
 	"hash/fnv"
 	"testing"
+	"time"
 
 	"github.com/mit-pdos/go-journal/buf"
 	"github.com/mit-pdos/go-journal/common"
@@ -314,5 +315,108 @@ func TestC10Codec(t *testing.T) {
 		}
 		St.Eval(1)
 		St.NT(Hash("codec", b[:8], name, h))
+	})
+}
+
+// After concurrent programs: once all clients have returned and background work is done, the running server must
+// be indistinguishable from one started on its disk, and its caches and allocators must agree with the disk -
+// whatever order the requests took effect in.  (Same programs as the C03 unit, with a working set larger than
+// the inode cache in a third of the cases, so that inodes are evicted while other requests wait for their locks.)
+func TestC10Conc(t *testing.T) {
+	rapid.Check(t, func(t *rapid.T) {
+		cfg := cGenCfg{RootPlus: true, DataOps: true, NameOps: true, DirRename: true, BigTrunc: rapid.IntRange(0, 3).Draw(t, "bigtrunc") == 0,
+			Focus: rapid.Bool().Draw(t, "focus"), FocusDir: rapid.IntRange(0, 2).Draw(t, "focusdir"), HandleOps: rapid.Bool().Draw(t, "handleops")}
+		bigset := rapid.IntRange(0, 2).Draw(t, "bigset") == 0
+		cfg.Sweep = bigset
+		cc := genConcCase(t, cfg, 0)
+		size := uint64(9000)
+		fulldisk := !bigset && rapid.IntRange(0, 3).Draw(t, "fulldisk") == 0
+		if fulldisk {
+			size = 1540 + 80
+		}
+		d := NewDisk(size)
+		d.SetRecord(false)
+		w, err := setupWorld(cc.Unstable, cc.LowChildren, d)
+		if err != nil {
+			failf(t, "C10", nil, "setup: %v", err)
+		}
+		defer func() { w.S.Stop() }()
+		if bigset {
+			if err := w.addExtras(130); err != nil {
+				failf(t, "C10", nil, "setup: %v", err)
+			}
+		}
+		if fulldisk {
+			w.FullDisk = true
+			w.exec(w.S.API(), cOp{Kind: "write", File: 0, Off: 0, Data: string(patternData(999, 8000)), Stable: 2})
+			if err := fillWorld(w, uint64(rapid.IntRange(0, 2).Draw(t, "freeblocks"))); err != nil {
+				t.Skip("could not fill the disk")
+			}
+			for c := range cc.Progs {
+				for i := range cc.Progs[c] {
+					cc.Progs[c][i].MayFail = true
+				}
+			}
+		}
+		run := w.runConcurrent(cc.Progs, cc.YieldSeed, false, 60*time.Second, cc.Pause)
+		detail := cc.describe()
+		detail["history"] = describeHistory(run.Ops)
+		if run.Slow || run.Hung || run.Panic != "" {
+			St.Class("run_not_judged")
+			t.Skip("not judged here (C06/C11)")
+		}
+		var dumpA, dumpB []string
+		var errA, errB, cerr, ferr error
+		o := Guard(60*time.Second, func() {
+			w.S.Quiesce()
+			fs := w.S.N.VerifFsState()
+			cerr = CacheCoherent(fs)
+			ferr = Fsck(fs, FsckOpts{Allocators: true}).Err()
+			dumpA, errA = dumpServer(w.S.API(), w.S.RootFH())
+			w.S.Quiesce()
+			img := w.S.D.Clone()
+			img.SetRecord(false)
+			b := StartSrv(img, cc.Unstable, false)
+			dumpB, errB = dumpServer(b.API(), b.RootFH())
+			b.Stop()
+		})
+		if o.Slow {
+			St.Class("call_too_slow_for_the_harness_not_judged")
+			t.Skip("harness too slow")
+		}
+		if o.Bad() {
+			failf(t, "C10", detail, "after the concurrent programs: %v", o)
+		}
+		if cerr != nil {
+			failf(t, "C10", detail, "after the concurrent programs, at a quiescent point %v", cerr)
+		}
+		if ferr != nil && containsCat(ferr, "[allocator]") {
+			failf(t, "C10", detail, "after the concurrent programs the allocators disagree with the disk: %v", ferr)
+		}
+		if errA != nil || errB != nil {
+			if fulldisk {
+				St.Class("dump_failed_on_a_full_disk_not_judged")
+				t.Skip("dump failed on a full disk")
+			}
+			failf(t, "C10", detail, "dump failed: running %v, restarted %v", errA, errB)
+		}
+		if d := diffDumps(dumpA, dumpB); d != "" && !fulldisk {
+			// on a full disk the dump itself (reads of holes) may be cut short differently; compare only with space
+			failf(t, "C10", detail, "after the concurrent programs a server started on the disk image does not behave like the running one: %s", d)
+		}
+		St.Eval(1)
+		St.Class("quiescent_points_after_concurrent_programs")
+		if conflicting(run.Ops) > 0 {
+			St.NT(Hash("conc", describeHistory(run.Ops)))
+		}
+		if bigset {
+			St.Class("concurrent_programs_with_a_working_set_larger_than_the_inode_cache")
+		}
+		if fulldisk {
+			St.Class("concurrent_programs_on_a_full_disk")
+		}
+		if St.WantSample(bigset) {
+			St.Sample(map[string]any{"kind": "concurrent programs, then running server vs. server started on its disk", "case": cc.describe(), "dump_lines": len(dumpA)}, true)
+		}
 	})
 }
